@@ -517,8 +517,11 @@ def l_sort(interp, recv, args):
 
     def cmp(a, b):
         r = interp.call_value(f, [a, b])
-        if not isinstance(r, float) or r != r:
-            raise _model().Unsupported("sort comparator returned a non number")
+        if not isinstance(r, float):
+            # (the tree's message and class for this case: TypeError)
+            raise interp.error("TypeError", "comparator must return a number")
+        if r != r:
+            raise _model().Unsupported("sort comparator returned NaN")
         return -1 if r < 0 else (1 if r > 0 else 0)
 
     return LList(sorted(recv.items, key=functools.cmp_to_key(cmp)))
